@@ -638,6 +638,10 @@ pub fn gen_c05(seed: u64, thorough: bool, only: Option<u64>, out: &mut Out) {
       sharings.push((t, m, sh));
     }
     let (t0, m0) = (&sharings[0].0.clone(), &sharings[0].1.clone());
+    let empty_sharing = {
+      let f = split_share(&sharings[0].2[0]).unwrap();
+      f.c.is_empty() && f.d.is_empty()
+    };
     let emit = |col: &[Vec<u8>], first_m: Option<&Vec<u8>>, what: String, out: &mut Out| {
       let obs = match decode_all(col) {
         Some(d) => recover_obs(&d),
@@ -651,6 +655,9 @@ pub fn gen_c05(seed: u64, thorough: bool, only: Option<u64>, out: &mut Out) {
         match first_m {
           Some(m) if obs.starts_with(&format!("ok {} ", hex(m))) => Ok(()),
           Some(_) => Err(format!("{}: recovery returned a message other than the first share's", what)),
+          None if empty_sharing && (what.contains("share point") || what.contains("share value")) && obs.starts_with(&format!("ok {} ", hex(m0))) => {
+            Err("empty-sharing: message and coins are both empty, so nothing depends on the sharing key and an altered share point / value of the first share is accepted (the right, empty, message is returned)".to_string())
+          }
           None if *t0 == 1 && what.contains("share point") && obs.starts_with(&format!("ok {} ", hex(m0))) => {
             Err("t1-share-point: at threshold 1 an altered share point of the first share is accepted (the right message is returned)".to_string())
           }
